@@ -6,6 +6,7 @@ Line-protocol component for C13.  A case is a little program over named register
     todfa Y X   tonfa Y X   star Y X   union Y X1 X2 …   concat Y X1 X2 …   min Y X   elim Y X   reidx Y X
     clone Y X   rename Y X <s:t,s:t,…|->   combine Y X1 X2 …   iso X Y   equal X Y   dump X   states X   symbols X
     setstart X <s>   setfinal X <sorted|stable|unordered> <f1,f2|->     (direct field assignment)
+    addfinal X <s>   (X.Final.Add(s); `bad-op` once a `setfinal` of the case has made some Final a set that is not sorted)
     acc X       (one bit per word of length ≤ k over the header's alphabet, shortest first)
     accw X <a1,a2,…|->
     next X <s> <a>   (NFA.Next: `nil` or the target list; DFA.Next: the target or -1)
@@ -92,9 +93,15 @@ def accAll (r : Reg) (ws : List (List Int)) : Outcome (List Bool) :=
       | .ok l => (match n.accept w with | .ok b => .ok (l ++ [b]) | .panic => .panic | .diverge => .diverge)
       | o => o) (.ok [])
 
-def step (sigma : List Int) (k : Nat) (rs : Regs) (line : String) : Step :=
+def step (sigma : List Int) (k : Nat) (unsorted : Bool) (rs : Regs) (line : String) : Step :=
   let bad := Step.out rs "bad-op"
   match words line with
+  | ["addfinal", x, v] =>
+    -- `X.Final.Add(v)` while every `Final` of the case is a sorted set
+    match getReg rs x, parseInt? v with
+    | some (.nfa n), some v => if unsorted then bad else .out (setReg rs x (.nfa (n.addFinal v))) "ok"
+    | some (.dfa d), some v => if unsorted then bad else .out (setReg rs x (.dfa (d.addFinal v))) "ok"
+    | _, _ => bad
   | ["nfa", x, s, f] =>
     match parseInt? s, parseList f with
     | some s, some f => .out (setReg rs x (.nfa (NFA.new s f))) "ok"
@@ -188,8 +195,10 @@ def step (sigma : List Int) (k : Nat) (rs : Regs) (line : String) : Step :=
     match getReg rs x with
     | some (.dfa d) => lift d.minimizePartition (fun P =>
         let m := buildMin d P
-        -- the marker is never printed by the implementation: an unstable final partition is a mismatch
-        .out (setReg rs y (.dfa m)) ("ok " ++ dumpDFA m ++ (if stableB d P then "" else " !unstable-partition")))
+        -- the marker is never printed by the implementation: an unstable final partition is a mismatch.  A self-check
+        -- of the Model (C13_minimize_accepts proves the partition stable for every DFA); cubic, so only up to 64 states
+        let marker := if d.states.length ≤ 64 then (if stableB d P then "" else " !unstable-partition") else ""
+        .out (setReg rs y (.dfa m)) ("ok " ++ dumpDFA m ++ marker))
     | _ => bad
   | ["elim", y, x] =>
     match getReg rs x with
@@ -230,19 +239,25 @@ def step (sigma : List Int) (k : Nat) (rs : Regs) (line : String) : Step :=
 def quietOps : List String :=
   ["dump", "todfa", "tonfa", "star", "union", "concat", "min", "elim", "reidx", "clone", "rename", "combine"]
 
-def runOps (sigma : List Int) (k : Nat) (quiet : Bool) : Regs → List String → List String
-  | _, [] => []
-  | rs, l :: rest =>
-    match step sigma k rs l with
+/-- did this op assign a `Final` that is not a sorted set?  (`setfinal X stable|unordered …` that was carried out) -/
+def setsUnsorted (line out : String) : Bool :=
+  match words line with
+  | ["setfinal", _, kind, _] => out == "ok" && kind != "sorted"
+  | _ => false
+
+def runOps (sigma : List Int) (k : Nat) (quiet : Bool) : Bool → Regs → List String → List String
+  | _, _, [] => []
+  | unsorted, rs, l :: rest =>
+    match step sigma k unsorted rs l with
     | .out rs' o =>
       let o' := if quiet && quietOps.contains ((words l).headD "") && o.startsWith "ok " then "ok" else o
-      o' :: runOps sigma k quiet rs' rest
+      o' :: runOps sigma k quiet (unsorted || setsUnsorted l o) rs' rest
     | .dead o => o :: rest.map (fun _ => "skip")
 
 def runCase (hdr : List String) (ops : List String) : List String :=
   let sigma := match headerGet hdr "sig" with
     | some s => (parseList s).getD [97, 98]
     | none => [97, 98]
-  runOps sigma (headerNat hdr "k" 5) ((headerGet hdr "quiet").isSome) [] ops
+  runOps sigma (headerNat hdr "k" 5) ((headerGet hdr "quiet").isSome) false [] ops
 
 end AlgoVerif.C13.Driver
